@@ -21,6 +21,8 @@ func install(x *Exec) {
 	lungo.VerifThreadEnd = hookThreadEnd
 	lungo.VerifRacy = hookRacy
 	dbkit.VerifRacy = hookRacy
+	lungo.VerifPick = hookPick
+	dbkit.VerifPick = hookPick
 }
 
 func uninstall() {
@@ -33,4 +35,6 @@ func uninstall() {
 	lungo.VerifThreadEnd = nil
 	lungo.VerifRacy = nil
 	dbkit.VerifRacy = nil
+	lungo.VerifPick = nil
+	dbkit.VerifPick = nil
 }
